@@ -38,6 +38,7 @@ type memCall struct {
 	scancel  context.CancelFunc
 	aborted  bool // client went away
 	bodyEOF  bool // server read the request body to its end
+	bodyShut bool // net/http closed the request body (at the first flush of the reply)
 	src      io.ReadCloser
 	in       bytes.Buffer // request body bytes on "the wire", not yet read by the server
 	inEOF    bool
@@ -61,13 +62,19 @@ type memCall struct {
 
 // ---- request body as seen by the server
 
-type memReqBody struct{ c *memCall }
+type memReqBody struct {
+	c        *memCall
+	internal bool // the server's own reads (discarding the rest of the body)
+}
 
 func (b *memReqBody) Read(p []byte) (int, error) {
 	c := b.c
 	c.mu.Lock()
 	defer c.mu.Unlock()
 	for {
+		if c.bodyShut && !b.internal {
+			return 0, http.ErrBodyReadAfterClose
+		}
 		if c.in.Len() > 0 {
 			return c.in.Read(p)
 		}
@@ -155,9 +162,12 @@ func (w *memRW) Flush() {
 	if !sent {
 		// net/http: before the response header goes out the rest of the
 		// request body is consumed (up to a limit)
-		n, err := io.CopyN(io.Discard, &memReqBody{c}, maxPostHandlerReadBytes+1)
+		// (and the body is closed: the handler's later reads fail with
+		// http.ErrBodyReadAfterClose -- HTTP/1.1 replies are half-duplex)
+		n, err := io.CopyN(io.Discard, &memReqBody{c: c, internal: true}, maxPostHandlerReadBytes+1)
 		_ = n
 		c.mu.Lock()
+		c.bodyShut = true
 		if err == nil {
 			// too big: the server answers and closes the connection
 			c.aborted = true
@@ -227,7 +237,7 @@ func (t *memTransport) RoundTrip(req *http.Request) (*http.Response, error) {
 		c.src = io.NopCloser(bytes.NewReader(nil))
 	}
 	go c.pump()
-	sreq, err := http.NewRequestWithContext(c.sctx, req.Method, req.URL.String(), &memReqBody{c})
+	sreq, err := http.NewRequestWithContext(c.sctx, req.Method, req.URL.String(), &memReqBody{c: c})
 	if err != nil {
 		return nil, err
 	}
